@@ -163,6 +163,15 @@ def corpus(ctx):
             notes_ = "".join(f"  {k} = N {k % 5} 0\n" for k in range(0, 6000, 16))
             cases.append((f"[Song]\n{{\n  Resolution = {res_}\n}}\n[SyncTrack]\n{{\n  0 = TS 4\n  0 = B {n_}\n}}\n[Events]\n{{\n}}\n[ExpertSingle]\n{{\n{notes_}}}\n", None))
             pad()  # each in a reference interpreter of its own: the reference parse of one never follows the other
+    # charts whose events coincide in tick, time and length while their tempo maps differ in shape (a tempo change whose effect has
+    # cancelled out by the shared tick; the same tempo written again): what one chart's event remembers of its tempo map is not the other's
+    track_ = "[ExpertSingle]\n{\n  768 = N 0 0\n  768 = S 2 384\n  768 = E solo\n  1536 = N 1 0\n  1536 = S 2 96\n  1536 = E soloend\n  2304 = N 2 0\n  2304 = S 2 0\n}\n"
+    ev_ = "[Events]\n{\n  768 = E \"section a\"\n  768 = E \"lyric b\"\n  768 = E \"c\"\n  1536 = E \"section d\"\n  1536 = E \"lyric e\"\n  1536 = E \"f\"\n}\n"
+    pad()
+    for sync_ in (["0 = B 120000"], ["0 = B 240000", "384 = B 80000"], ["0 = B 120000", "192 = B 120000", "384 = B 120000"], ["0 = B 80000", "384 = B 240000"],
+                  ["0 = B 120000", "768 = B 120000", "1536 = B 120000"], ["0 = B 120000"]):
+        cases.append(("[Song]\n{\n  Resolution = 192\n}\n[SyncTrack]\n{\n  0 = TS 4\n  768 = TS 3\n  1536 = TS 6 3\n" + "".join(f"  {l}\n" for l in sync_) + "}\n" + ev_ + track_, None))
+        pad()
     # > 128 distinct sustain tuples in one chart, and > 128 distinct resolutions over tiny charts
     groups = [gen.NoteGroup(10 * k, {0: k + 1, 1: 2 * k + 3}) for k in range(160)]
     src = gen.ChartSrc(192, {"resolution": 192}, [(0, 120000)], [(0, 4, None)], [], [], [gen.TrackSrc(0, 3, groups, [], [])])
@@ -330,6 +339,35 @@ def paths(ctx, out, cases):
                               f"{q_[:100]!r}, its text read from a stream {p_[:100]!r}", {"op": "resave", "old": texts[k], "new": new, "how": k % 3}, observed=q_, promised=p_)
 
 
+        # … and a save that leaves the file's size and modification time as they were (one lane digit changed by a tool that restores
+        # the times, or within the clock's granularity): the path names other text all the same
+        import re as _re
+        for k, (p, present) in enumerate(files):
+            old = p.read_text(encoding="utf-8")
+            try:
+                Chart.from_filepath(p)
+            except Exception:  # noqa: BLE001
+                continue
+            m = _re.search(r"(?m)^(\s*\d+ = N )([0-4])( \d+\s*)$", old)
+            if not m:
+                continue
+            new = old[: m.start(2)] + str((int(m.group(2)) + 1) % 5) + old[m.end(2):]
+            st = os.stat(p)
+            with open(p, "r+", encoding="utf-8") as f:
+                f.write(new)
+            os.utime(p, ns=(st.st_atime_ns, st.st_mtime_ns))
+            try:
+                x = impl.dump_chart(Chart.from_filepath(p), [])
+            except Exception as e:  # noqa: BLE001
+                x = impl.err_name(e)
+            ref = impl.run_chart(new).split("|W ")[0]
+            out.case(fw.h(["resave-same-stamp", k]), True, None, tags=["path-resaved"])
+            if x.split("|W ")[0] != ref:
+                p_, q_ = fw.first_diff(ref, x.split("|W ")[0])
+                out.violation("resave-" + fw.h([k, new, "stamp"]), f"a file saved again with the same size and modification time and read by path gives "
+                              f"{q_[:100]!r}, its text read from a stream {p_[:100]!r}", {"op": "resave", "old": old, "new": new, "how": 3}, observed=q_, promised=p_)
+
+
 def wrapped(ctx, out):
     """memoised functions against their originals"""
     from chartparse.instrument import Note, NoteTrackIndex, _refined_sustain_tuple
@@ -369,9 +407,15 @@ def replay(ctx, data):
                 Chart.from_filepath(p)
             except Exception:  # noqa: BLE001
                 pass
-            tmp = p.with_suffix(".tmp")
-            tmp.write_text(data["new"], encoding="utf-8")
-            os.replace(tmp, p)
+            if data.get("how") == 3:
+                st = os.stat(p)
+                with open(p, "r+", encoding="utf-8") as f:
+                    f.write(data["new"])
+                os.utime(p, ns=(st.st_atime_ns, st.st_mtime_ns))
+            else:
+                tmp = p.with_suffix(".tmp")
+                tmp.write_text(data["new"], encoding="utf-8")
+                os.replace(tmp, p)
             try:
                 x = impl.dump_chart(Chart.from_filepath(p), [])
             except Exception as e:  # noqa: BLE001
